@@ -232,7 +232,8 @@ func (e *evidence) write(path string) error {
 		"toolchain":                        e.p.Go,
 		"build_s":                          e.p.BuildS,
 		"oracles": []string{"O1 sequential equivalence", "O2 arguments never modified (boundaries, end of run, per-step cadence, solo)", "O3 no data race (race build, invisible baton)",
-			"O4 results repeat across fresh processes", "O5 results repeat within a process / after the simulated run", "L1 no deadlock", "L2 bounded completion"},
+			"O4 results repeat across fresh processes", "O4b a sample of operations re-evaluated each in a brand-new process", "O5 results repeat within a process / after the simulated run / after a legal edit",
+			"O6 returned values stay what they were", "L1 no deadlock", "L2 bounded completion"},
 	}
 	doc := map[string]interface{}{
 		"property_id": propertyID,
